@@ -51,6 +51,22 @@ impl BufMut for Limit {
     fn put_u8(&mut self, n: u8) { unimplemented!() }
 }
 
+// bytes: `impl BufMut for Vec<u8>` (grows on demand; remaining_mut = isize::MAX - len)
+impl BufMut for Vec<u8> {
+    spec fn written(&self) -> Seq<u8> { self@ }
+    spec fn rem(&self) -> usize { (isize::MAX as usize - self@.len()) as usize }
+    #[verifier::external_body]
+    fn remaining_mut(&self) -> (r: usize) { unimplemented!() }
+    #[verifier::external_body]
+    fn has_remaining_mut(&self) -> (r: bool) { unimplemented!() }
+    #[verifier::external_body]
+    fn put_slice(&mut self, src: &[u8]) { unimplemented!() }
+    #[verifier::external_body]
+    fn put_u16(&mut self, n: u16) { unimplemented!() }
+    #[verifier::external_body]
+    fn put_u8(&mut self, n: u8) { unimplemented!() }
+}
+
 impl Limit {
     #[verifier::external_body]
     fn get_ref(&self) -> (r: &Vec<u8>)
